@@ -3,6 +3,7 @@
 //! Phase dispatcher.  Phases living in this crate:
 //!   ops   (ops.rs, ops_raw.rs)  every batch over the operation alphabet through the real
 //!                               wrapper on the real kernel, differential against direct calls
+//!   ringflags (ops_ringflags.rs) C17 keys: entry hand-over on real rings from setup_io_uring, per flag set
 //!   drop  (ops_drop.rs)         `Drop for IoUring` observed through the syscall seam
 //!   ring  (ring.rs)             <- to be added by the ring-phase engineer: add `mod ring;`
 //!                               below and the two marked match arms
@@ -11,7 +12,9 @@ use common::*;
 
 mod ops;
 mod ops_drop;
+mod ops_flags;
 mod ops_raw;
+mod ops_ringflags;
 mod ops_sqpoll;
 mod ops_sym;
 // mod ring;            // <-- ring phase: uncomment / add
@@ -26,6 +29,7 @@ fn main() {
         match v["phase"].as_str().unwrap_or("ops") {
             "ops" => ops::replay(&v, &mut r),
             "drop" => ops_drop::replay(&v, &mut r),
+            "ringflags" => ops_ringflags::replay(&v, &mut r),
             // "ring" => ring::replay(&v, &mut r),      // <-- ring phase
             other => panic!("replay value of unknown phase {other}"),
         }
@@ -39,8 +43,9 @@ fn main() {
     let r = match phase.as_str() {
         "ops" => ops::run(&args),
         "drop" => ops_drop::run(&args),
+        "ringflags" => ops_ringflags::run(&args), // reports under C17 keys (hand-over on real rings)
         // "ring" => ring::run(&args),                  // <-- ring phase
-        _ => panic!("unknown phase {phase} (ops | drop)"),
+        _ => panic!("unknown phase {phase} (ops | drop | ringflags)"),
     };
     r.write(&args.out);
 }
